@@ -490,7 +490,13 @@ std::string fgets(FILE* f) {
     size_t block_bytes = strlen(block.c_str());
     block.resize(block_bytes);
     if ((block_bytes < 0xFF) || (block[0xFE] == '\n')) {
-      break; // The line ends at the end of this block
+      // The line ends at the end of this block - unless it has no newline
+      // because the read failed part-way (::fgets returns the partial data
+      // for some errors, e.g. EAGAIN on a non-blocking stream)
+      if (((block_bytes == 0) || (block[block_bytes - 1] != '\n')) && ::ferror(f)) {
+        throw io_error(fileno(f), "cannot read from stream");
+      }
+      break;
     }
   }
 
